@@ -4,7 +4,10 @@ Termination certificate for the LR driver. `Rec.feed` runs the reductions the ta
 one lookahead; `localRun` does the same on the TOP TWO states of a stack only and gives up (`under`)
 as soon as a reduction would pop below them. If every local run from every pair of states ends within
 `N` steps (`termCheck`), then `feed` — and with it `LR.parse` — terminates on every stack and input
-(`Lemmas/Term.lean`). Core Lean only.
+(`Lemmas/Term.lean`). Parse stacks are paths of the automaton, so it is enough to ask this of the pairs
+`[s, b]` where `b` has an edge to `s`, and of the single stack `[start]` (`termCheckAdj`); a pair that
+fails because its local run really loops (`findCycle`: it comes back to the same top part of the local
+stack without having popped below it) makes `feed` diverge on every stack that ends in that pair (`Lemmas/TermAdj.lean`). Core Lean only.
 -/
 namespace GrmVerif.Term
 open GrmVerif Rec
@@ -43,5 +46,88 @@ def termCheck (G : Grammar) (A : Automaton) (N : Nat) : Bool :=
     (List.range A.nstates).all (fun s =>
       localRun G A la N [s] != .fuelOut &&
       (List.range A.nstates).all (fun b => localRun G A la N [s, b] != .fuelOut)))
+
+/-- `b` has an edge (under some symbol) to `s` -/
+def adj (A : Automaton) (b s : Nat) : Bool :=
+  (A.edges b).any (fun e => A.edge b e.1 == some s)
+
+/-- the local runs from the stack `[start]` and from every pair `[s, b]` with an edge `b → s` end
+within `N` steps, under every lookahead. These are the only one- and two-element tops a parse stack
+(a path of the automaton from the start state) can have. -/
+def termCheckAdj (G : Grammar) (A : Automaton) (N : Nat) : Bool :=
+  (List.range G.ntoks).all (fun la =>
+    localRun G A la N [A.start] != .fuelOut &&
+    (List.range A.nstates).all (fun b =>
+      (A.edges b).all (fun e => A.edge b e.1 != some e.2 || localRun G A la N [e.2, b] != .fuelOut)))
+
+/-- the first `(lookahead, state, state below)` that fails `termCheckAdj` (`none` below = the stack
+`[start]`) -/
+def failAdj (G : Grammar) (A : Automaton) (N : Nat) : Option (Nat × Nat × Option Nat) :=
+  (List.range G.ntoks).findSome? (fun la =>
+    if localRun G A la N [A.start] == .fuelOut then some (la, A.start, none)
+    else (List.range A.nstates).findSome? (fun b =>
+      (A.edges b).findSome? (fun e =>
+        if A.edge b e.1 == some e.2 && localRun G A la N [e.2, b] == .fuelOut then some (la, e.2, some b)
+        else none)))
+
+/-- one reduction on a known stack suffix; `none` when the run ends or would pop below the suffix -/
+def localStep (G : Grammar) (A : Automaton) (la : Nat) (xs : List Nat) : Option (List Nat) :=
+  match xs with
+  | [] => none
+  | st :: _ =>
+    match A.action st la with
+    | .reduce p =>
+      if xs.length ≤ (G.rhs p).length then none
+      else
+        match xs.drop (G.rhs p).length with
+        | [] => none
+        | prior :: rest =>
+          match A.goto prior (G.lhs p) with
+          | none => none
+          | some s' => some (s' :: prior :: rest)
+    | _ => none
+
+/-- `k` local reductions -/
+def localIter (G : Grammar) (A : Automaton) (la : Nat) : Nat → List Nat → Option (List Nat)
+  | 0, xs => some xs
+  | k + 1, xs =>
+    match localStep G A la xs with
+    | none => none
+    | some xs' => localIter G A la k xs'
+
+/-- `some k`: after `k ≥ 1` further local reductions from `xs` the local stack again has `target` as
+its top part (`target ++ vs`, top first) -/
+def returnsTo (G : Grammar) (A : Automaton) (la : Nat) (target : List Nat) : Nat → Nat → List Nat → Option Nat
+  | 0, _, _ => none
+  | fuel + 1, k, xs =>
+    match localStep G A la xs with
+    | none => none
+    | some xs' => if target.isPrefixOf xs' then some (k + 1) else returnsTo G A la target fuel (k + 1) xs'
+
+/-- look for a genuine loop of the local run from `zs`: after some reductions (`pre` counts them) the
+run is at a local stack whose top `m` states `ts`, run on their own, lead after `k ≥ 1` reductions
+(`k ≤ W`) to `ts ++ vs` — the same top part again, over whatever was left below (`vs = []`: the run
+returns to the same stack; `vs ≠ []`: the stack grows for ever, as with hidden left recursion).
+Result `(pre, m, k)`. Every one of the first `steps` stacks of the run is tried, with `m` = 1, 2 and
+the whole local stack. -/
+def findCycle (G : Grammar) (A : Automaton) (la : Nat) (W : Nat) : Nat → Nat → List Nat → Option (Nat × Nat × Nat)
+  | 0, _, _ => none
+  | steps + 1, pre, zs =>
+    match [1, 2, zs.length].findSome? (fun m =>
+        (returnsTo G A la (zs.take m) W 0 (zs.take m)).map (fun k => (m, k))) with
+    | some mk => some (pre, mk.1, mk.2)
+    | none =>
+      match localStep G A la zs with
+      | none => none
+      | some zs' => findCycle G A la W steps (pre + 1) zs'
+
+/-- the states for which a path from the start state is found (breadth first, at most `fuel` rounds) -/
+def reachFrom (A : Automaton) : Nat → List Nat → List Nat
+  | 0, seen => seen
+  | fuel + 1, seen =>
+    let next := (seen.flatMap (fun s => (A.edges s).filterMap (fun e => A.edge s e.1))).filter (fun t => !seen.contains t)
+    if next.isEmpty then seen else reachFrom A fuel (seen ++ next.eraseDups)
+
+def reachable (A : Automaton) : List Nat := reachFrom A A.nstates [A.start]
 
 end GrmVerif.Term
